@@ -96,10 +96,8 @@ def _is_two(e, inits, depth=0):
     if depth > 3:
         return False
     if e.get("k") == "Lit":
-        try:
-            return float(e["v"].rstrip("f3264_").rstrip("_")) == 2.0
-        except ValueError:
-            return False
+        from .facts import lit_float
+        return lit_float(e.get("v")) == 2.0
     if e.get("k") == "Call" and len(e.get("args", [])) == 1:
         return _is_two(e["args"][0], inits, depth + 1)
     if e.get("k") == "MethodCall" and e["name"] == "unwrap":
